@@ -82,7 +82,8 @@ def run_C10(ctx):
         recs = im["recs"][-1][1]
         bounds = [0] + [o + l for (_, o, l) in recs]
         for trunc in (1, 0):
-            cfg = "100000 1073741824 4 1073741824 %d %d" % (trunc, rnd.choice(gen.CFG_RBUF))
+            # truncation enabled is the default: a third of those configurations leave the field unset
+            cfg = "100000 1073741824 4 1073741824 %s %d" % ("-" if trunc == 1 and rnd.random() < 0.34 else trunc, rnd.choice(gen.CFG_RBUF))
             cuts = range(len(data) + 1) if (len(data) <= 700 or ctx.thorough()) else sorted(set(list(range(0, 60)) + bounds + [b - 1 for b in bounds if b] + [b + 1 for b in bounds] + [rnd.randrange(len(data)) for _ in range(200)]))
             for p in cuts:
                 if p > len(data):
